@@ -893,7 +893,8 @@ func (env *SpecEnv) call(x *ast.CallExpr) tv {
 		ks := ex.u.sortOf(mt.Key())
 		k := env.coerceSort(env.eval(x.Args[1]), ks)
 		mp := sel(ex.mapPComp(env.heap, mt.Key(), mt.Elem()), m.T)
-		return tv{T: sel(mp, k.T), Ty: boolT}
+		// a nil map has no keys
+		return tv{T: and(not(eq(m.T, tNull)), sel(mp, k.T)), Ty: boolT}
 	case "fresh": // fresh(p): allocated during the call
 		a := env.eval(x.Args[0])
 		r := a.T
@@ -921,6 +922,17 @@ func (env *SpecEnv) call(x *ast.CallExpr) tv {
 			return tv{T: sliceBase(a.T)}
 		}
 		return tv{T: a.T}
+	case "visited": // visited(k): key k was already yielded by the enclosing map range
+		if env.st == nil || env.st.lastRange == nil {
+			sfail("visited: no map range in scope")
+		}
+		vis, ok := env.st.visited[env.st.lastRange]
+		if !ok {
+			sfail("visited: no map range in scope")
+		}
+		ks, _, _ := arrayParts(vis.So)
+		k := env.coerceSort(env.eval(x.Args[0]), ks)
+		return tv{T: sel(vis, k.T), Ty: boolT}
 	case "bits": // the bit pattern of a value (floats are carried as their IEEE bits)
 		a := env.needTerm(env.eval(x.Args[0]))
 		return tv{T: a.T}
@@ -975,7 +987,9 @@ func (env *SpecEnv) specCall(name string, args []ast.Expr) tv {
 		}
 		a := env.eval(args[0])
 		r := a.T
-		if a.T.So == sIface {
+		if a.IsNil {
+			r = tNull // process-wide ghost state lives at the nil key
+		} else if a.T.So == sIface {
 			r = ifacePv(a.T)
 		} else if a.T.So == sSlice {
 			r = sliceBase(a.T)
